@@ -16,6 +16,6 @@ fi
 [ "$1" = "--" ] && shift
 if git diff --quiet; then echo "MUTATION HAD NO EFFECT" >&2; exit 2; fi
 for id in "$@"; do
-  VERIF_NO_EVIDENCE=1 /verif/check "$id" --tier quick 2>&1 | grep -E "VIOLATION|signature|KNOWN|INFRA|tier=" | head -8
+  VERIF_NO_EVIDENCE=1 timeout ${VERIF_TRY_TIMEOUT:-900} /verif/check "$id" --tier quick 2>&1 | grep -E "VIOLATION|signature|KNOWN|INFRA|tier=" | head -8
   echo "exit($id)=${PIPESTATUS[0]}"
 done
